@@ -106,8 +106,9 @@ func specLenByte(n int, nl int, k int) int {
 
 //@ func getDataByteLength
 //@   property C02 C13
-//@   requires specKnownType(typ) && 0 <= size && size <= 1<<48
-//@   ensures  result == size * specWidth(typ)
+//@   requires 0 <= size && size <= 1<<48
+//@   ensures  specKnownType(typ) ==> result == size * specWidth(typ)
+//@   ensures  !specKnownType(typ) ==> result == 0
 
 //@ func getHeaderBytes
 //@   property C02 C13
@@ -554,3 +555,44 @@ func specBoolByte(b bool) int {
 //@     invariant result[0] == specFormatCode(specFloatType(w))*4 + specNLen(n*w)
 //@     invariant forall k int :: 0 <= k && k < h-1 ==> result[1+k] == specLenByte(n*w, h-1, k)
 //@     invariant forall p int :: 0 <= p && p < (rangeindex+1)*8 ==> result[h+p] == specBEByteU(8, f64bits(node.values[p/8]), p%8)
+
+// ---------------------------------------------------------------------------------------------
+// IntNode factory and rep check
+
+//@ type IntNode invariant forall s string :: has(self.variables, s) ==> 0 <= self.variables[s] && self.variables[s] < len(self.values) && self.values[self.variables[s]] == 0 && re_match(specVarNamePattern(), s)
+//@   invariant forall s string, t string :: has(self.variables, s) && has(self.variables, t) && s != t ==> self.variables[s] != self.variables[t]
+
+//@ func (*IntNode).checkRep
+//@   property C12 C13
+//@   let okW = specIsIntW(node.byteSize)
+//@   panics_if !okW
+//@   panics_if okW && (exists i int :: 0 <= i && i < len(node.values) && !specInRangeI(node.byteSize, node.values[i]))
+//@   panics_only_if !okW || (exists s string :: has(node.variables, s)) || (exists i int :: 0 <= i && i < len(node.values) && !specInRangeI(node.byteSize, node.values[i]))
+//@   ensures forall i int :: 0 <= i && i < len(node.values) ==> specInRangeI(node.byteSize, node.values[i])
+//@   ensures forall s string :: has(node.variables, s) ==> 0 <= node.variables[s] && node.variables[s] < len(node.values) && node.values[node.variables[s]] == 0 && re_match(specVarNamePattern(), s)
+//@   ensures forall s string, t string :: has(node.variables, s) && has(node.variables, t) && s != t ==> node.variables[s] != node.variables[t]
+//@   loop 1
+//@     invariant okW && 0 <= rangeindex+1 && rangeindex+1 <= len(node.values)
+//@     invariant forall k int :: 0 <= k && k <= rangeindex ==> specInRangeI(node.byteSize, node.values[k])
+//@   loop 2
+//@     invariant okW && forall k int :: 0 <= k && k < len(node.values) ==> specInRangeI(node.byteSize, node.values[k])
+//@     invariant forall s string :: has(itervisited, s) ==> has(node.variables, s) && 0 <= node.variables[s] && node.variables[s] < len(node.values) && node.values[node.variables[s]] == 0 && re_match(specVarNamePattern(), s) && has(visited, node.variables[s])
+//@     invariant forall s string, t string :: has(itervisited, s) && has(itervisited, t) && s != t ==> node.variables[s] != node.variables[t]
+//@     invariant fresh(visited)
+
+//@ func NewIntNode
+//@   property C12 C13 C09
+//@   let okW = specIsIntW(byteSize)
+//@   let r = cast(result, *IntNode)
+//@   panics_if !okW
+//@   panics_if okW && len(values)*byteSize > 16777215
+//@   panics_if exists i int :: 0 <= i && i < len(values) && !isint(values[i]) && !typeis(values[i], string)
+//@   panics_if okW && (exists i int :: 0 <= i && i < len(values) && isint(values[i]) && !specInRangeI(byteSize, ival(values[i])))
+//@   panics_only_if !okW || len(values)*byteSize > 16777215 || (exists i int :: 0 <= i && i < len(values) && !(isint(values[i]) && specInRangeI(byteSize, ival(values[i]))))
+//@   ensures typeis(result, *IntNode) && fresh(result) && r.byteSize == byteSize && len(r.values) == len(values)
+//@   ensures forall i int :: 0 <= i && i < len(values) ==> (isint(values[i]) && r.values[i] == ival(values[i])) || (typeis(values[i], string) && r.values[i] == 0 && has(r.variables, sval(values[i])) && r.variables[sval(values[i])] == i)
+//@   ensures forall s string :: has(r.variables, s) ==> 0 <= r.variables[s] && r.variables[s] < len(values) && typeis(values[r.variables[s]], string) && sval(values[r.variables[s]]) == s
+//@   loop 1
+//@     invariant 0 <= rangeindex+1 && rangeindex+1 <= len(values) && len(nodeValues) == rangeindex+1 && fresh(nodeValues) && fresh(nodeVariables)
+//@     invariant forall k int :: 0 <= k && k <= rangeindex ==> (isint(values[k]) && nodeValues[k] == ival(values[k])) || (typeis(values[k], string) && nodeValues[k] == 0 && has(nodeVariables, sval(values[k])) && nodeVariables[sval(values[k])] == k)
+//@     invariant forall s string :: has(nodeVariables, s) ==> 0 <= nodeVariables[s] && nodeVariables[s] <= rangeindex && typeis(values[nodeVariables[s]], string) && sval(values[nodeVariables[s]]) == s
